@@ -13,6 +13,12 @@ def queries(tier):
                                  'harness_order', [order, k, extra],
                                  'main calls gg with %d argument(s), gg declares %d int parameter(s), %s: verdict must be %s in either order; node positions symbolic'
                                  % (k + extra, k, 'gg declared first' if order == 0 else 'main declared first', 'Semantic error' if extra else 'accepted'), tier))
+    names = ['Shape,Polygon,Square', 'Shape,Square,Polygon', 'Polygon,Shape,Square', 'Polygon,Square,Shape', 'Square,Shape,Polygon', 'Square,Polygon,Shape']
+    for perm in (range(6) if tier != 'quick' else (0, 3, 5)):
+        for impl in (0, 1):
+            qs.append(C16.aq('analyser class-order %s %s' % (names[perm].replace(',', '-'), 'implemented' if impl else 'abstract'), 'harness_class_order_an', [perm, impl],
+                             'classes Shape {virtual area();} Polygon extends Shape {} Square extends Polygon {%s} declared in the order %s, main does new Square(): '
+                             'verdict must be %s in every order; node positions symbolic' % ('override area()' if impl else '', names[perm], 'accepted' if impl else 'Semantic error'), tier))
     return qs + class_order_queries(tier)
 
 
